@@ -418,9 +418,12 @@ def _expand(h: _Helper, call: ast.Call, caller: ast.AST, targets: Optional[ast.A
             new = p + suffix
             rename[p] = new
             pre.append(ast.copy_location(ast.Assign(targets=[ast.Name(id=new, ctx=ast.Store())], value=copy.deepcopy(v), lineno=call.lineno), call))
-    # locals (and comprehension variables): fresh names
+    # locals (and comprehension variables): fresh names - but not what a function-level import binds: the import
+    # comes along with the body and binds the same object under the same name in the caller
+    imported = {(a.asname or a.name).split(".")[0] for n in _own_nodes(fn) if isinstance(n, (ast.Import, ast.ImportFrom)) for a in n.names}
+    only_imported = {s for s in imported if not any(isinstance(n, ast.Name) and n.id == s and isinstance(n.ctx, (ast.Store, ast.Del)) for n in _own_nodes(fn))}
     for s in stored:
-        if s not in rename and s not in binding:
+        if s not in rename and s not in binding and s not in only_imported:
             rename[s] = s + suffix
     for n in _own_nodes(fn):
         if isinstance(n, ast.comprehension):
@@ -1682,6 +1685,15 @@ def expand_generator_helpers(trees: Dict[str, ast.Module], anchors: Set[str]) ->
     return notes
 
 
+def A_dotted(e: ast.AST) -> Optional[str]:
+    if isinstance(e, ast.Name):
+        return e.id
+    if isinstance(e, ast.Attribute):
+        b = A_dotted(e.value)
+        return f"{b}.{e.attr}" if b else None
+    return None
+
+
 def normalise_call_arguments(trees: Dict[str, ast.Module]) -> List[str]:
     """`f(a, kind=k, parent=p)` is read as `f(a, k, p)` for a function / method that the package defines under
     a unique name: whether an argument is passed by position or by keyword (or the parameters were made
@@ -1698,12 +1710,49 @@ def normalise_call_arguments(trees: Dict[str, ast.Module]) -> List[str]:
         for s_ in t.body:
             if isinstance(s_, ast.FunctionDef):
                 defs.setdefault(s_.name, []).append((s_, False))
+    # small record classes (a dataclass without bases, a NamedTuple; no __init__ of their own): the constructor's
+    # parameters are the annotated fields in order
+    records: Dict[str, List[Tuple[str, Optional[ast.AST]]]] = {}
+    n_cls: Dict[str, int] = {}
+    for t in trees.values():
+        for n in ast.walk(t):
+            if isinstance(n, ast.ClassDef):
+                n_cls[n.name] = n_cls.get(n.name, 0) + 1
+                is_nt = len(n.bases) == 1 and (A_dotted(n.bases[0]) or "").split(".")[-1] == "NamedTuple"
+                is_dc = not n.bases and any((A_dotted(d.func if isinstance(d, ast.Call) else d) or "").split(".")[-1] == "dataclass" for d in n.decorator_list)
+                if not (is_nt or is_dc) or any(isinstance(s_, ast.FunctionDef) and s_.name in ("__init__", "__new__", "__post_init__") for s_ in n.body):
+                    continue
+                flds = [(s_.target.id, s_.value) for s_ in n.body if isinstance(s_, ast.AnnAssign) and isinstance(s_.target, ast.Name)]
+                if 1 <= len(flds) <= 6 and all(v is None or isinstance(v, ast.Constant) for _k, v in flds):
+                    records[n.name] = flds
     n_calls = 0
     for t in trees.values():
         for c in ast.walk(t):
             if not (isinstance(c, ast.Call) and c.keywords):
                 continue
             nm = c.func.id if isinstance(c.func, ast.Name) else (c.func.attr if isinstance(c.func, ast.Attribute) else None)
+            if nm in records and n_cls.get(nm) == 1 and nm not in defs and not any(k.arg is None for k in c.keywords) and not any(isinstance(x, ast.Starred) for x in c.args):
+                params_ = [k for k, _v in records[nm]]
+                given_ = {k.arg: k.value for k in c.keywords}
+                if len(c.args) <= len(params_) and all(k in params_[len(c.args):] for k in given_):
+                    rest_ = params_[len(c.args):]
+                    last_ = max(rest_.index(k) for k in given_)
+                    dfl_ = dict(records[nm])
+                    new_ = list(c.args)
+                    good_ = True
+                    for pn in rest_[: last_ + 1]:
+                        if pn in given_:
+                            new_.append(given_[pn])
+                        elif dfl_.get(pn) is not None:
+                            new_.append(copy.deepcopy(dfl_[pn]))
+                        else:
+                            good_ = False
+                            break
+                    if good_:
+                        c.args, c.keywords = new_, []
+                        ast.fix_missing_locations(c)
+                        n_calls += 1
+                continue
             cands = defs.get(nm or "", [])
             if len(cands) != 1 or nm.startswith("__"):
                 continue
